@@ -327,7 +327,10 @@ def check(case, ctx):
             exp = {k: da.stack([f[k] for f in frees], axis='new', keys=keys, **akw) for k in names}
         else:
             label = "concatenate_ds(list of %d, axis=%r)" % (len(lst), d)
-            fn = lambda: da.concatenate_ds(lst, axis=d)
+            if list(lst[0].dims).index(d) == 0 and case["by_pos"]:
+                fn = lambda: da.concatenate_ds(lst)          # axis=0 is the default
+            else:
+                fn = lambda: da.concatenate_ds(lst, axis=d)
             exp = {k: da.concatenate([f[k] for f in frees], axis=d) for k in names}
     label += " on Dataset(%s)" % ", ".join("%s:%r" % (k, tuple(v["dims"])) for k, v in (case["list"][0] if what in ('stack_ds', 'concat_ds') else dsp)["vars"].items())
     # expected first (on the free-standing twins), so that an exception there is attributed correctly
